@@ -1011,7 +1011,9 @@ class GroupCoordinator(BaseCoordinator):
                     "to another member"
                 ) from exc
             except Errors.KafkaError as err:
-                if not err.retriable:
+                # Do not retry while closing: ensure_coordinator_known() gives
+                # up on close(), so the retry could spin forever.
+                if not err.retriable or self._closing.done():
                     raise
                 else:
                     # wait backoff and try again
